@@ -174,10 +174,10 @@ def support_suite(chk, w, rule, nmax, ns=None, fixed=True):
                         cs.expect(M("relativeFromAbsolute", 1), "relativeFromAbsolute(absoluteFromRelative(i)) = i",
                                   c2, o2, is_opt(o2, idx), "opt(%d)" % idx)
         # pairs on the same grid, on an equal grid held in a distinct object, and on a different grid
-        g2 = w.mk_grid(w.grid_values(n)).v
+        g2 = w.need_grid(w.grid_values(n))
         others = [("same-object", grid), ("equal-distinct-object", g2)]
         for label, gb in others:
-            supsb = sups if gb is grid else {k: w.mk_support(gb, *k).v for k in sups}
+            supsb = sups if gb is grid else {k: w.need_support(gb, *k) for k in sups}
             for wa, a in sups.items():
                 for wb, b in supsb.items():
                     case = dict(n=n, a=wa, b=wb, grids=label)
@@ -324,7 +324,7 @@ def grid_suite(chk, w, rule, maxlen, ns=None, fixed=True, ctors=True, accessors=
     # accessors on valid grids
     for n in _ns(2, maxlen + 2, ns):
         vals = w.grid_values(n)
-        grid = w.mk_grid(vals).v
+        grid = w.need_grid(vals)
         case = dict(n=n)
         o = w.mcall(grid, "size")
         cs.expect(M("size"), "size = number of points", case, o, is_val(o, n), str(n))
@@ -358,7 +358,7 @@ def grid_suite(chk, w, rule, maxlen, ns=None, fixed=True, ctors=True, accessors=
                       str(int(x.v // 2)) if present else "throws BSplineException")
         # equality
         cp = w.run(lambda: w.I.memberwise(grid), "Grid copy").v
-        peers = [("same-object", grid, True), ("copy", cp, True), ("equal-distinct-object", w.mk_grid(vals).v, True)]
+        peers = [("same-object", grid, True), ("copy", cp, True), ("equal-distinct-object", w.need_grid(vals), True)]
         for label, vals2 in different_grids(w, n):
             gd = w.mk_grid(vals2)
             if gd.kind == "val":
